@@ -115,19 +115,32 @@ func upgradeByInlining(c *Ctx, spec *propSpec) {
 		return
 	}
 	type view struct {
-		held    map[string]*Obligation
-		counts  map[string]int
-		skipped map[string]bool
-		obs     []*Obligation
+		held     map[string]*Obligation
+		counts   map[string]int
+		skipped  map[string]bool
+		obs      []*Obligation
+		mode     int
+		norm     bool
+		taint    map[string]bool
+		allTaint bool
 	}
 	var views []view
-	maxMode := 2
-	if os.Getenv("TYPCHECK_NOVIEW2") != "" {
-		maxMode = 1 // experiment switch: how much rests on the view that walks through baseline helpers
+	// the views, in the order they are tried: new helpers walked through; every same-package function walked through;
+	// then the same two readings with explicit panics that only spell out a runtime panic left out
+	// (normalisePanicGuards) - for the plain view and for the fully walked-through one
+	type vcfg struct {
+		mode int
+		norm bool
 	}
-	for mode := 1; mode <= maxMode; mode++ {
+	cfgs := []vcfg{{1, false}, {2, false}, {0, true}, {2, true}}
+	if os.Getenv("TYPCHECK_NOVIEW2") != "" {
+		cfgs = []vcfg{{1, false}, {0, true}} // experiment switch: how much rests on the view that walks through baseline helpers
+	}
+	for vi, cfg := range cfgs {
+		mode := cfg.mode
 		an := NewAnalysis(c.P)
 		an.Mode = mode
+		an.NormPanics = cfg.norm
 		R2 := NewReport(spec.id, c.Tier)
 		saved := c.P.Skip
 		skip := map[*FuncInfo]bool{}
@@ -145,7 +158,7 @@ func upgradeByInlining(c *Ctx, spec *propSpec) {
 			spec.run(c2)
 		}()
 		c.P.Skip = saved
-		v := view{held: map[string]*Obligation{}, counts: map[string]int{}, skipped: map[string]bool{}, obs: R2.Obs}
+		v := view{held: map[string]*Obligation{}, counts: map[string]int{}, skipped: map[string]bool{}, obs: R2.Obs, mode: mode, norm: cfg.norm}
 		// a view in which some function of a rule could not be summarised (or the checker failed) proves nothing for that rule
 		tainted := map[string]bool{}
 		allTainted := false
@@ -174,9 +187,10 @@ func upgradeByInlining(c *Ctx, spec *propSpec) {
 		for fi := range skip {
 			v.skipped[fi.Name] = true
 		}
+		v.taint, v.allTaint = tainted, allTainted
 		views = append(views, v)
 		// stop early when everything is resolved
-		if mode == 1 && bad == 0 {
+		if vi == 0 && bad == 0 {
 			break
 		}
 		remaining := 0
@@ -214,6 +228,21 @@ func upgradeByInlining(c *Ctx, spec *propSpec) {
 			continue
 		}
 		done := false
+		// a caller of a new helper is decided on the view that walks the helper through: an objection of the plain view
+		// (where the helper's result is an opaque value) that this view does not even raise - the rule ran there, for
+		// this construct or others, untainted - has no object
+		if viaHelper[o.Construct] && len(views) > 0 && views[0].mode == 1 && views[0].counts[o.Rule] > 0 && !views[0].taint[o.Rule] && !views[0].allTaint {
+			present := false
+			for _, w := range views[0].obs {
+				if w.Key() == o.Key() {
+					present = true
+				}
+			}
+			if !present {
+				upgraded++
+				continue
+			}
+		}
 		if os.Getenv("TYPCHECK_TRACE") != "" {
 			for i, v := range views {
 				fmt.Printf("TRACE merge %s: view %d held=%v skipped=%v\n", o.Key(), i+1, v.held[o.Key()] != nil, v.skipped[o.Construct])
@@ -222,12 +251,19 @@ func upgradeByInlining(c *Ctx, spec *propSpec) {
 		for i, v := range views {
 			// Rules that judge every CALL of certain helpers see nothing to judge once those helpers are walked through
 			// (view 2 expands baseline functions too): a verdict reached there is vacuous for them.
-			if i >= 1 && callKeyedRules[strings.TrimPrefix(o.Rule, "map/")] {
+			if v.mode >= 2 && callKeyedRules[strings.TrimPrefix(o.Rule, "map/")] {
 				continue
 			}
 			if h := v.held[o.Key()]; h != nil {
 				o.Verdict = Held
-				o.Msg = h.Msg + fmt.Sprintf(" [established on inlining view %d; plain view: %s]", i+1, o.Msg)
+				what := fmt.Sprintf("inlining view %d", v.mode)
+				if v.norm {
+					what += " with explicit panics that spell out a runtime panic left out"
+					if v.mode == 0 {
+						what = "the plain view with explicit panics that spell out a runtime panic left out"
+					}
+				}
+				o.Msg = h.Msg + fmt.Sprintf(" [established on %s; plain view: %s]", what, o.Msg)
 				o.Facts = nil
 				upgraded++
 				done = true
